@@ -120,6 +120,9 @@ func (vc *FnVC) scanPreserves(loc string) []scanHit {
 		}
 		return hits
 	}
+	if strings.HasPrefix(loc, "globals(") && strings.HasSuffix(loc, ")") {
+		return vc.scanGlobals(reach, loc[8:len(loc)-1])
+	}
 	env := vc.newEnv(vc.entry, vc.entry)
 	comps := map[string]bool{}
 	class := ""
@@ -278,3 +281,58 @@ func (vc *FnVC) preservesObligations() []*Obligation {
 }
 
 var _ = types.Typ
+
+// globalRoot: the package-level variable an address or loaded value is rooted at, if any.
+func globalRoot(v ssa.Value) *ssa.Global {
+	for i := 0; i < 8; i++ {
+		switch x := v.(type) {
+		case *ssa.Global:
+			return x
+		case *ssa.FieldAddr:
+			v = x.X
+		case *ssa.IndexAddr:
+			v = x.X
+		case *ssa.UnOp:
+			v = x.X
+		default:
+			return nil
+		}
+	}
+	return nil
+}
+
+// scanGlobals: writes to package-level variables of module package pkgName (stores to the
+// variable, to memory reached by loading it directly, updates of maps held in it). Calls of
+// methods of sync types are not stores and are allowed by construction.
+func (vc *FnVC) scanGlobals(reach map[*ssa.Function]bool, pkgName string) []scanHit {
+	var hits []scanHit
+	isPkg := func(g *ssa.Global) bool { return g != nil && g.Pkg != nil && g.Pkg.Pkg.Name() == pkgName && inModulePkg(g.Pkg.Pkg.Path()) }
+	for f := range reach {
+		if !inModule(f) || f.Synthetic == "package initializer" || f.Name() == "init" {
+			continue
+		}
+		for _, b := range f.Blocks {
+			for _, ins := range b.Instrs {
+				switch x := ins.(type) {
+				case *ssa.Store:
+					if g := globalRoot(x.Addr); isPkg(g) {
+						hits = append(hits, scanHit{f, vc.posOf(ins.Pos()), "store to package variable " + g.Name()})
+					}
+				case *ssa.MapUpdate:
+					if g := globalRoot(x.Map); isPkg(g) {
+						hits = append(hits, scanHit{f, vc.posOf(ins.Pos()), "update of map in package variable " + g.Name()})
+					}
+				case ssa.CallInstruction:
+					if bi, ok := x.Common().Value.(*ssa.Builtin); ok && (bi.Name() == "delete" || bi.Name() == "clear") {
+						if g := globalRoot(x.Common().Args[0]); isPkg(g) {
+							hits = append(hits, scanHit{f, vc.posOf(ins.Pos()), "delete from map in package variable " + g.Name()})
+						}
+					}
+				}
+			}
+		}
+	}
+	return hits
+}
+
+func inModulePkg(path string) bool { return strings.HasPrefix(path, modulePath) }
